@@ -282,7 +282,7 @@ Spec == Init /\ [][Next]_vars
 Finished == phase = "run" /\ (m.st # "run" \/ fuel = 0)
 Emit == Finished => PrintT(ToJson([tag |-> "CASE", prog |-> prog, st |-> IF m.st = "run" THEN "Fuel" ELSE m.st,
                                    why |-> IF m.st \in {"Unspecified", "Unmodelled"} THEN m.e[2] ELSE "",
-                                   out |-> m.out, ev |-> hist, inj |-> inj, static |-> S!Check(prog)]))
+                                   out |-> m.out, used |-> m.used, ev |-> hist, inj |-> inj, static |-> S!Check(prog)]))
 \* properties of the reference machine, checked on every state of every run
 MachineOk == phase = "run" => DoneClean(m) /\ EnvWellFormed(m)
 OutGrows == [][phase = "run" /\ phase' = "run" => Len(m.out) <= Len(m'.out) /\ SubSeq(m'.out, 1, Len(m.out)) = m.out]_vars
